@@ -5,37 +5,49 @@
 (* and above all the exit decision, which the model allows only when every reader has registered and finished and    *)
 (* no channel is in the hands of a re-queue goroutine (AggClosedExit with AllAccounted).                              *)
 (*                                                                                                                    *)
-(* Logged events:                                                                                                     *)
-(*   registered f   the reader of file f has sent its channel into NextLinesCh          -> (Acquire(f)) . Register(f) *)
+(* Logged events (a trace point fires before or after the channel operation it reports, never atomically with it, so *)
+(* every channel send is a silent step between its "begin" and its "end" event):                                      *)
+(*   regbegin f     the reader of file f is about to send its channel into NextLinesCh                                *)
+(*   registered f   ... and has sent it                       (Acquire(f) . Register(f) happened in between)         *)
 (*   closed         the aggregator found its current channel closed and drained          -> guard only                *)
 (*   next           ... and took the next channel                                        -> AggClosedNext             *)
 (*   exit           ... and decided that nothing more can come                           -> AggClosedExit             *)
 (*   swap           the current channel is momentarily empty, another one is taken        -> AggEmptySwap             *)
-(*   requeued       the re-queue goroutine has handed the old channel back               -> Requeue(c), c not logged  *)
-(* Silent: the limiter (Acquire; it is C13's subject, LimCap = NFiles here), the readers' sends and close (Produce,   *)
-(* Close), the aggregator's receive (AggTake) and its very first channel (AggFirst has no trace point).               *)
+(*   rqbegin        a re-queue goroutine is about to hand the old channel back                                        *)
+(*   requeued       ... and has handed it back                (Requeue(c) happened in between, c not logged)         *)
+(* Silent: the limiter (Acquire; it is C13's subject, LimCap = NFiles here), the channel sends named above, the       *)
+(* readers' line sends and close (Produce, Close), the aggregator's receive (AggTake) and its very first channel      *)
+(* (AggFirst has no trace point).                                                                                     *)
 EXTENDS MaprSched, Json
 CONSTANT TraceFile
 Tr == ndJsonDeserialize(TraceFile)      \* [ev |-> "registered", f |-> 2]
-VARIABLES l, ok
-tvars == <<vars, l, ok>>
+VARIABLES l, ok, pend, rqAvail, rqUnacked
+tvars == <<vars, l, ok, pend, rqAvail, rqUnacked>>
 Ev == Tr[l]
 More == l <= Len(Tr)
 IsEv(name) == More /\ Ev.ev = name /\ l' = l + 1
 
 SilentStep == \/ AggFirst \/ AggTake
               \/ \E f \in F : Produce(f) \/ Close(f)
-Silent == SilentStep /\ UNCHANGED l
+Silent == SilentStep /\ UNCHANGED <<l, pend, rqAvail, rqUnacked>>
+SilentRegister == \E f \in pend : /\ rpc[f] \in {"idle", "limited"}
+                                     /\ (Register(f) \/ (Acquire(f) \cdot Register(f)))
+                                     /\ UNCHANGED <<l, pend, rqAvail, rqUnacked>>
+SilentRequeue == /\ rqAvail > 0 /\ (\E c \in F : Requeue(c))
+                 /\ rqAvail' = rqAvail - 1 /\ rqUnacked' = rqUnacked + 1 /\ UNCHANGED <<l, pend>>
 
-TRegistered == IsEv("registered") /\ (Register(Ev.f) \/ (Acquire(Ev.f) \cdot Register(Ev.f)))
-TClosed     == IsEv("closed") /\ agg = "run" /\ ch[cur] = 0 /\ closed[cur] /\ UNCHANGED vars
-TNext       == IsEv("next") /\ AggClosedNext
-TExit       == IsEv("exit") /\ AggClosedExit
-TSwap       == IsEv("swap") /\ AggEmptySwap
-TRequeued   == IsEv("requeued") /\ \E c \in F : Requeue(c)
+TRegBegin   == IsEv("regbegin") /\ pend' = pend \cup {Ev.f} /\ UNCHANGED <<vars, rqAvail, rqUnacked>>
+TRegistered == IsEv("registered") /\ Ev.f \in pend /\ rpc[Ev.f] \in {"reading", "done"} /\ pend' = pend \ {Ev.f} /\ UNCHANGED <<vars, rqAvail, rqUnacked>>
+TClosed     == IsEv("closed") /\ agg = "run" /\ ch[cur] = 0 /\ closed[cur] /\ UNCHANGED <<vars, pend, rqAvail, rqUnacked>>
+TNext       == IsEv("next") /\ AggClosedNext /\ UNCHANGED <<pend, rqAvail, rqUnacked>>
+TExit       == IsEv("exit") /\ AggClosedExit /\ UNCHANGED <<pend, rqAvail, rqUnacked>>
+TSwap       == IsEv("swap") /\ AggEmptySwap /\ UNCHANGED <<pend, rqAvail, rqUnacked>>
+TRqBegin    == IsEv("rqbegin") /\ rqAvail' = rqAvail + 1 /\ UNCHANGED <<vars, pend, rqUnacked>>
+TRequeued   == IsEv("requeued") /\ rqUnacked > 0 /\ rqUnacked' = rqUnacked - 1 /\ UNCHANGED <<vars, pend, rqAvail>>
 
-TInit == Init /\ l = 1 /\ ok = TRUE
-TNextStep == /\ TRegistered \/ TClosed \/ TNext \/ TExit \/ TSwap \/ TRequeued \/ Silent
+TInit == Init /\ l = 1 /\ ok = TRUE /\ pend = {} /\ rqAvail = 0 /\ rqUnacked = 0
+TNextStep == /\ \/ TRegBegin \/ TRegistered \/ TClosed \/ TNext \/ TExit \/ TSwap \/ TRqBegin \/ TRequeued
+                \/ Silent \/ SilentRegister \/ SilentRequeue
              /\ ok' = (ok /\ EveryLineCounted')
 TSpec == TInit /\ [][TNextStep]_tvars
 Report == (l = Len(Tr) + 1) => PrintT(<<"ACCEPTED", ok, agg = "exited">>)
